@@ -95,7 +95,7 @@ Definition Q (cs : nodes) : Prop :=
 
 (* the parenthesis protocol around a kind writer whose count is bounded by W k at exponent k *)
 Lemma protocol_snd (e : node) (o : lopt) (wk : lopt -> res text) (W : nat -> nat) :
-  (forall o', snd (wk o') <= W (ex o')) ->
+  (forall o', sl o' = sl o -> snd (wk o') <= W (ex o')) ->
   (forall j k, j <= k -> W j <= W k) ->
   snd (protocol e o wk)
   <= 1 + (if nlb o then W (ex o) else W (ex o - 1) + W (ex o)).
@@ -103,7 +103,7 @@ Proof.
   intros HW Hm. unfold protocol. destruct (needs_paren e o).
   - set (oi := LOpt (lw o) (ctx o) (pos o) (sl o) true).
     assert (Hi : snd (between t_lparen t_rparen oi wk) <= W (ex oi)).
-    { apply between_snd. intros o' S1 N1. pose proof (HW o') as H0. rewrite (ex_flags oi o' S1 N1) in H0. exact H0. }
+    { apply between_snd. intros o' S1 N1. pose proof (HW o' S1) as H0. rewrite (ex_flags oi o' S1 N1) in H0. exact H0. }
     assert (Ei : ex oi = if nlb o then ex o else ex o - 1).
     { unfold ex, oi. cbn [sl nlb]. destruct (sl o), (nlb o); reflexivity. }
     destruct (between t_lparen t_rparen oi wk) as [[s|] c] eqn:Eb; cbn [snd] in Hi.
@@ -112,10 +112,10 @@ Proof.
       * cbn [tick snd]. rewrite Ei in Hi. cbv iota in *. lia.
       * assert (Hb : snd (bind (ofopt (reset (with_w o (indent_in (lw o))))) (fun o2 => wk o2)) <= W (ex o)).
         { apply bind_ofopt_snd. intros o2 E2. apply reset_flags in E2 as [S2 N2]. cbn [with_w sl nlb] in S2, N2.
-          pose proof (HW o2) as H0. rewrite (ex_flags o o2 S2 N2) in H0. exact H0. }
+          pose proof (HW o2 S2) as H0. rewrite (ex_flags o o2 S2 N2) in H0. exact H0. }
         cbv zeta. destruct (bind (ofopt (reset (with_w o (indent_in (lw o))))) (fun o2 => wk o2)) as [[s'|] c'];
           cbn [tick snd] in *; rewrite Ei in Hi; cbv iota in *; lia.
-  - specialize (HW o). destruct (wk o) as [r c]. cbn [tick snd] in *.
+  - specialize (HW o eq_refl). destruct (wk o) as [r c]. cbn [tick snd] in *.
     destruct (nlb o); [lia|]. pose proof (Hm (ex o - 1) (ex o)). lia.
 Qed.
 
@@ -162,51 +162,39 @@ Proof.
   apply node_nodes_ind; unfold P, Q.
   - (* Id *)
     intros w o. cbn [we size].
-    eapply Nat.le_trans; [apply (protocol_snd _ o _ (fun _ => 0)); [intro; cbn; lia | intros; lia]|].
+    eapply Nat.le_trans; [apply (protocol_snd _ o _ (fun _ => 0)); [intros; cbn; lia | intros; lia]|].
     rewrite Nat.pow_1_l. destruct (nlb o); lia.
   - (* Tup *)
     intros cs [Hin Hln] o. cbn [we size].
     pose proof (ex_range o) as R.
     eapply Nat.le_trans;
-      [apply (protocol_snd _ o _ (fun k => sumpw cs (k - 1) + sumpw cs k))|].
-    + intro o'. eapply Nat.le_trans; [apply (wk_tup_snd _ _ o' (sumpw cs) (sumpw cs)); [intros; apply Hin | intros; apply Hln]|].
-      pose proof (ex_range o'). destruct (sl o').
-      * pose proof (sumpw_mono cs (ex o' - 1) (ex o')). lia.
-      * lia.
-    + intros j k L. pose proof (sumpw_mono cs (j - 1) (k - 1)). pose proof (sumpw_mono cs j k). lia.
+      [apply (protocol_snd _ o _ (fun k => if sl o then sumpw cs k else sumpw cs (k - 1) + sumpw cs k))|].
+    + intros o' S1. eapply Nat.le_trans; [apply (wk_tup_snd _ _ o' (sumpw cs) (sumpw cs)); [intros; apply Hin | intros; apply Hln]|].
+      rewrite S1. destruct (sl o); lia.
+    + intros j k L. pose proof (sumpw_mono cs (j - 1) (k - 1)). pose proof (sumpw_mono cs j k). destruct (sl o); lia.
     + (* arithmetic: n = 1 + sizes cs *)
       set (x := sizes cs). set (k := ex o) in *.
       assert (B : forall j, 1 <= j -> sumpw cs j <= x ^ j) by (intros; apply sumpw_le; assumption).
-      assert (B0 : sumpw cs 0 <= x).
-      { clear. induction cs as [|c t IH]; cbn [sumpw sizes]; [lia|]. cbn [Nat.pow]. pose proof (size_pos c). unfold x in *. cbn [sizes]. lia. }
-      destruct (nlb o) eqn:En.
-      * (* k in {1,2} *)
-        assert (k <= 2) by (unfold k, ex; rewrite En; destruct (sl o); lia).
-        destruct (Nat.eq_dec k 1) as [->|]; [cbn [Nat.sub]; rewrite Nat.pow_1_r; pose proof (B 1); rewrite Nat.pow_1_r in *; lia|].
-        assert (k = 2) as -> by lia. cbn [Nat.sub].
-        pose proof (B 1). pose proof (B 2). pose proof (one_plus_two_pows x 1). rewrite Nat.pow_1_r in *. lia.
-      * assert (2 <= k) by (unfold k, ex; rewrite En; destruct (sl o); lia).
-        destruct (Nat.eq_dec k 2) as [->|].
-        -- cbn [Nat.sub]. pose proof (B 1). pose proof (B 2). rewrite Nat.pow_1_r in *.
-           pose proof (one_plus_two_pows x 1). rewrite Nat.pow_1_r in *.
-           (* 1 + (s0 + s1) + (s1 + s2) <= (1+x)^2 = 1 + 2x + x^2 *)
-           replace ((S x) ^ 2) with (1 + 2 * x + x * x) by (cbn; lia). cbn [Nat.pow] in *. nia.
-        -- assert (k = 3) as -> by lia. cbn [Nat.sub].
-           pose proof (B 1). pose proof (B 2). pose proof (B 3). rewrite Nat.pow_1_r in *.
-           replace ((S x) ^ 3) with (1 + 3 * x + 3 * (x * x) + x * x * x) by (cbn; lia). cbn [Nat.pow] in *. nia.
+      assert (M : forall i j, i <= j -> sumpw cs i <= sumpw cs j) by (intros; apply sumpw_mono; assumption).
+      replace (S x) with (1 + x) by lia.
+      destruct (sl o) eqn:Es, (nlb o) eqn:En; unfold k, ex in *; rewrite ?Es, ?En in *; cbn [Nat.add Nat.sub] in *.
+      * (* single pass *) pose proof (B 1). cbn [Nat.pow] in *. nia.
+      * pose proof (B 1). pose proof (B 2). cbn [Nat.pow] in *. nia.
+      * pose proof (B 1). pose proof (B 2). pose proof (M 1 2). cbn [Nat.pow] in *. nia.
+      * pose proof (B 1). pose proof (B 2). pose proof (B 3). pose proof (M 1 2). pose proof (M 2 3). cbn [Nat.pow] in *. nia.
   - (* Bin *)
     intros l Hl r Hr o. cbn [we size].
     pose proof (ex_range o) as R. pose proof (size_pos l). pose proof (size_pos r).
     eapply Nat.le_trans;
       [apply (protocol_snd _ o _ (fun k => size l ^ k + size r ^ k))|].
-    + intro o'. apply wk_bin_snd; intros o'' S1 N1; rewrite <- (ex_flags o' o'' S1 N1); [apply Hl | apply Hr].
+    + intros o' _. apply wk_bin_snd; intros o'' S1 N1; rewrite <- (ex_flags o' o'' S1 N1); [apply Hl | apply Hr].
     + intros j k L. pose proof (pow_mono_exp (size l) j k). pose proof (pow_mono_exp (size r) j k). lia.
     + set (a := size l) in *. set (b := size r) in *. set (k := ex o) in *.
       assert (Ps : forall j, 1 <= j -> a ^ j + b ^ j <= (a + b) ^ j) by (intros; apply pow_sum; assumption).
       destruct (nlb o) eqn:En.
       * pose proof (Ps k). pose proof (one_plus_pow (a + b) k). replace (S (a + b)) with (1 + (a + b)) by lia. lia.
       * assert (2 <= k) by (unfold k, ex; rewrite En; destruct (sl o); lia).
-        destruct k as [|[|j]]; try lia. cbn [Nat.sub]. rewrite Nat.sub_0_r.
+        destruct k as [|[|j]]; try lia. cbn [Nat.sub]. rewrite ?Nat.sub_0_r.
         pose proof (Ps (S j)). pose proof (Ps (S (S j))). pose proof (one_plus_two_pows (a + b) (S j)).
         replace (S (a + b)) with (1 + (a + b)) by lia. lia.
   - (* NNil *)
@@ -226,3 +214,37 @@ Proof.
         rewrite <- (ex_flags o o1 S1 N1). apply Hln.
       * pose proof (Hc o1). rewrite (ex_flags o o1 S1 N1) in H. lia.
 Qed.
+
+Theorem we_calls_le e o : snd (we e o) <= size e ^ ex o.
+Proof. exact (proj1 calls_bound e o). Qed.
+
+(* at most cubic, whatever the options *)
+Theorem we_calls_cubic e o : snd (we e o) <= size e ^ 3.
+Proof.
+  eapply Nat.le_trans; [apply we_calls_le|]. apply pow_mono_exp; [apply size_pos | apply ex_range].
+Qed.
+
+(* a single pass once both flags are set: the inline attempts are linear *)
+Theorem we_calls_single_pass e o : sl o = true -> nlb o = true -> snd (we e o) <= size e.
+Proof.
+  intros S N. pose proof (we_calls_le e o) as H. unfold ex in H. rewrite S, N in H. cbn [Nat.add] in H.
+  rewrite Nat.pow_1_r in H. exact H.
+Qed.
+
+Lemma stmt_write_snd e o : snd (stmt_write e o) <= size e ^ 3.
+Proof.
+  unfold stmt_write. apply bind_ofopt_snd. intros o1 _.
+  eapply Nat.le_trans; [apply bind_snd with (m := 0); intro; cbn; lia|]. rewrite Nat.add_0_r. apply we_calls_cubic.
+Qed.
+
+Lemma stmt_expand_snd fuel : forall e o, snd (stmt_expand fuel e o) <= fuel * size e ^ 3.
+Proof.
+  induction fuel as [|f IH]; intros e o; cbn [stmt_expand]; [cbn; lia|].
+  pose proof (stmt_write_snd e o) as H. destruct (stmt_write e o) as [[s|] c]; cbn [snd] in *; [lia|].
+  destruct (widen (lw o)) as [w| |]; cbn [snd]; try lia.
+  specialize (IH e (with_w o w)). destruct (stmt_expand f e (with_w o w)) as [r c']. cbn [snd] in *. lia.
+Qed.
+
+(* the whole of pl_to_prql on `let v = e`, the widening retries of write_or_expand included *)
+Theorem format_let_calls e : snd (format_let e) <= 28 * size e ^ 3.
+Proof. unfold format_let. apply bind_ofopt_snd. intros o _. apply stmt_expand_snd. Qed.
